@@ -277,7 +277,8 @@ def describe(rep):
         "evaluation for every month class x round x flag combination are compared (exact rational identity up to a "
         "positive factor) with the documented max-min objective, the nine-term consumption sum, the 3x(2+2) intake caps, "
         "the 2:1 feed:biofuel weighted objective and the symmetric round-2 pins; statement-order analysis shows that the "
-        "reported optimum is the first solve's objective value. This decides that the programme given to CBC is the "
+        "reported optimum is the first solve's objective value; C02.INPUTS: optimizer.py keeps no class-/module-level container "
+        "that its methods write and memoises no builder, so the programme depends on this optimiser's inputs only. This decides that the programme given to CBC is the "
         "documented one (what the property's why_tests_cant names: wrong coefficient, month index off by one, dropped "
         "term). Optimality of CBC's answer itself is NOT decided."
     )
